@@ -1,15 +1,15 @@
 """C01: see DESIGN.md section 3 C01."""
-from _ccmon import standard_plan, floor_msgs, COMMON_ASSUMPTIONS, EVOLVE_NOTE
+from _ccmon import standard_plan, floor_msgs, COMMON_ASSUMPTIONS, EVOLVE_NOTE, FAULT_NOTE
 
 LEVEL = "exploration"
 RULE = 'histories are generated per shard from (seed, index) by harness/src/gen.rs (weights of mode C01: collections every few operations, automatic collection in half of the histories, finalizers that clear slots / resurrect) plus the directed corpus harness/src/directed.rs; each is executed against the real crate with all oracles on, followed by an epilogue that releases everything and collects until quiet. distinct = distinct expanded operation lists (FNV hash); non-trivial iff at least one collection ran and at least one object was reclaimed by a collector pass while the program still held other objects (the reachability walk ran after it)'
-RULE += EVOLVE_NOTE
+RULE += EVOLVE_NOTE + FAULT_NOTE
 ASSUMPTIONS = COMMON_ASSUMPTIONS
 FLOORS = {'objects_reclaimed_by_collector': 1000, 'oracle_objects_walked': 100000, 'collections_observed': 1000}
 
 
 def plan(ctx):
-    return standard_plan(ctx, "C01", mode="C01")
+    return standard_plan(ctx, "C01", mode="C01", after_faults=True)
 
 
 def floors(ctx, evaluations, distinct, counters, sets):
